@@ -18,6 +18,8 @@ pub enum Step {
     /// expect the registration to be refused by the client
     RegisterExpectError(usize),
     Revoke(u8),
+    /// the notification is sent, its answer is not waited for (the tower is going to hold the request)
+    RevokeNoWait(u8),
     Script(usize, String, Vec<Reply>),
     Default(usize, String, Reply),
     Down(usize),
@@ -305,6 +307,13 @@ pub fn run_scenario(sc: &Scenario, props: &[&'static str]) -> Trace {
                     cx.check_store(&name, false);
                 }
             }
+            Step::RevokeNoWait(i) => {
+                let (payload, _) = revocation(*i);
+                if let Some(c) = cx.client.as_mut() {
+                    c.send("commitment_revocation", payload);
+                }
+                cx.trace.events.push(format!("revoke({i}) -> sent"));
+            }
             Step::Script(t, path, replies) => cx.towers[*t].script(path, replies),
             Step::Default(t, path, reply) => cx.towers[*t].set_default(path, reply.clone()),
             Step::Down(t) => cx.towers[*t].set_up(false),
@@ -496,8 +505,10 @@ pub fn run_scenario(sc: &Scenario, props: &[&'static str]) -> Trace {
             }
         }
         // requests after the tower was proven misbehaving
-        if let Some(pos) = st.log.iter().position(|s| s.answered_with == Reply::WrongKey && s.path == "/add_appointment") {
-            let later = st.log[pos + 1..].iter().filter(|s| s.path == "/add_appointment").count();
+        if let Some(pos) = st.log.iter().position(|s| matches!(s.answered_with, Reply::WrongKey | Reply::HoldThenWrongKey) && s.path == "/add_appointment") {
+            // (requests that came in before that answer was out, and while the client was reading it, do not count)
+            let proven = st.log[pos].answered_at.map(|t| t + Duration::from_millis(500));
+            let later = st.log[pos + 1..].iter().filter(|s| s.path == "/add_appointment" && proven.map_or(false, |p| s.at > p)).count();
             if later > 0 && props.contains(&"C14") {
                 cx.trace.viols.push(("request-sent-to-misbehaving-tower".into(), format!("tower {t} answered with a signature of another key, yet received {later} more add_appointment requests")));
             }
@@ -614,6 +625,28 @@ fn c14_scenarios(tier: Tier) -> Vec<Scenario> {
             steps: vec![Step::Register(0), Step::Script(0, add.clone(), vec![Reply::Reject(33), k.clone()]), Step::Revoke(1), Step::Settle, Step::Revoke(1), Step::Settle, Step::Revoke(2), Step::Settle],
         });
     }
+    // the proof arrives while another appointment is already queued for retry (the tower holds the first request, drops
+    // the connection of the second, then answers the first with another key's signature): the retrier must not send
+    v.push(Scenario {
+        name: "misbehaviour-proven-while-a-retry-is-queued".into(),
+        towers: 1,
+        opts: RetryOpts::default(),
+        steps: vec![
+            Step::Register(0),
+            Step::Script(0, add.clone(), vec![Reply::HoldThenWrongKey, Reply::Hangup]),
+            Step::RevokeNoWait(1),
+            Step::WaitInFlight(0),
+            Step::Revoke(2),
+            Step::Release(0),
+            Step::Settle,
+            Step::Sleep(2500),
+            Step::Settle,
+            Step::Restart,
+            Step::Settle,
+            Step::Revoke(3),
+            Step::Settle,
+        ],
+    });
     // a tower proven misbehaving stays so, also across a (valid) renewal of the subscription
     v.push(Scenario {
         name: "misbehaving-then-renewal".into(),
@@ -774,6 +807,18 @@ fn c05_scenarios(tier: Tier) -> Vec<Scenario> {
         steps.extend(pre);
         steps.extend(vec![Step::Revoke(1), Step::Revoke(1), Step::Settle, Step::Revoke(2), Step::Settle]);
         v.push(Scenario { name: format!("duplicate-notification:{name}"), towers: 1, opts: RetryOpts::default(), steps });
+    }
+    // a commitment the tower has acknowledged is notified again when the tower is down / refuses it / has lost the
+    // subscription: it stays accepted, and nothing else (looked at while the tower is still in that condition)
+    for (name, cond) in [
+        ("tower-down", vec![Step::Down(0)]),
+        ("tower-rejects", vec![Step::Default(0, add.clone(), Reply::Reject(36))]),
+        ("subscription-lost", vec![Step::Default(0, add.clone(), Reply::SubscriptionError)]),
+    ] {
+        let mut steps = vec![Step::Register(0), Step::Revoke(1), Step::Settle];
+        steps.extend(cond);
+        steps.extend(vec![Step::Revoke(1), Step::Settle, Step::Restart, Step::Settle]);
+        v.push(Scenario { name: format!("duplicate-notification:acknowledged-earlier:{name}"), towers: 1, opts: RetryOpts::default(), steps });
     }
     // two towers share the data of a commitment: one has acknowledged it, the other still has it pending; the commitment
     // is notified again while the first one is down, which then comes back and acknowledges again: the other's record stays
@@ -1262,6 +1307,51 @@ fn c13_scenarios(_tier: Tier) -> Vec<Scenario> {
         steps.extend(pre);
         steps.extend(vec![Step::Revoke(2), Step::Up(0), Step::WaitDelivered(0)]);
         v.push(Scenario { name: format!("revocation-in-retrier-state:{state}:no-overlap"), towers: 1, opts: fast, steps });
+    }
+    // an event that falls between the moment an idle retrier is woken up (auto-retry delay over: its pending data is
+    // read back from the database) and the moment it is started (the manager's next tick, a second later): a new
+    // revocation must still be delivered, abandoning the tower must not take the retry manager down. The wake-up happens
+    // 4 to 5 s after the retrier went idle (delay 3 s, whole seconds, one tick per second): three offsets around 5 s.
+    for off in [4600u64, 5000, 5400] {
+        v.push(Scenario {
+            name: format!("revocation-between-wake-up-and-start-of-an-idle-retrier:{off}ms"),
+            towers: 1,
+            opts: fast,
+            steps: vec![
+                Step::Register(0),
+                Step::Down(0),
+                Step::Revoke(1),
+                Step::WaitStatus(0, "unreachable".into()),
+                Step::Up(0),
+                Step::Sleep(off),
+                Step::Revoke(2),
+                Step::WaitDelivered(0),
+                Step::WaitStatus(0, "reachable".into()),
+                Step::Settle,
+                Step::WaitDeliveredWithin(0, 1),
+            ],
+        });
+        v.push(Scenario {
+            name: format!("abandon-between-wake-up-and-start-of-an-idle-retrier:{off}ms"),
+            towers: 2,
+            opts: fast,
+            steps: vec![
+                Step::Register(0),
+                Step::Register(1),
+                Step::Down(0),
+                Step::Revoke(1),
+                Step::WaitStatus(0, "unreachable".into()),
+                Step::Sleep(off),
+                Step::Abandon(0),
+                Step::Sleep(1500),
+                // the other tower still gets its outage handled
+                Step::Down(1),
+                Step::Revoke(2),
+                Step::Sleep(300),
+                Step::Up(1),
+                Step::WaitDelivered(1),
+            ],
+        });
     }
     v
 }
